@@ -755,6 +755,11 @@ pub fn open_file(w: &Shared, i: usize) -> io::Result<SimSource> {
     let which = i + 1;
     g.cur_src = which as u8;
     g.srcs[which].opened += 1;
+    if g.srcs[which].opened > 1 {
+        // the same path named again on the command line: a fresh reading from the start
+        g.srcs[which].pos = 0;
+        g.srcs[which].chunk_idx = 0;
+    }
     if g.any_rfault {
         g.opens_after_any_rfault += 1;
     }
